@@ -900,6 +900,16 @@ def run_property(pid, tier, jobs, level, trusted_base, assumptions, explanation,
                        "verifier_output": "[%s] %s: FAILURE (%s)" % (o["name"], o["desc"], o["loc"])}, f, indent=1)
         vlines.append("VIOLATION property=%s replay=%s obligation=%s:%s%s" %
                       (pid, rp, j.name, o["name"], "" if reproduced else " no-failing-input-found"))
+    # one harness written out, so that a reader sees what a job looks like
+    for r in results[:1]:
+        j = r["_job"]
+        m = re.search(r'^void %s\(void\)' % re.escape(j.entry), j.spec, re.M)
+        if m:
+            try:
+                k = j.spec.index('{', m.end())
+                samples.append({"job": j.name, "harness": j.spec[m.start():match_close(j.spec, k) + 1][:1500]})
+            except Exception:
+                pass
     # evidence
     funcs = {}
     for j in jobs:
